@@ -175,6 +175,7 @@ func (w *World) commit(t *simcore.Task, wt *WTxn) {
 		tc.M.DelLog = append(tc.M.DelLog, wt.dels[ti]...)
 		mc.Entries[ti] = st.Idx
 		mc.RevChg[ti] = st.Rev != wt.base[ti].Rev
+		st.frozen = true
 		tc.M.Chain = append(tc.M.Chain, st)
 		tc.M.Writers--
 	}
